@@ -523,7 +523,8 @@ theorem dictGet_mem (d : List (String × String)) (key o : Str) (h : dictGet d k
   · cases h
 
 theorem exec_movie (ctx : Lscr.Ctx) (i : Nat) (v : Spec.Name) (hn : ctx.names[i]? = some v) (a : Int) (st : PState) :
-    ∃ n, Emb (.movie v) n ∧ execI ctx (.op2 0x5f i) a st = .ok { st with stack := n :: st.stack } := by
+    ∃ n, ((∃ p, n = .leaf .propName (.s v) p) ∨ (∃ p q o, n = .propAcc p (.leaf .localVar (.s o) q) v ∧ startsWith o (S "_") = true)) ∧
+      execI ctx (.op2 0x5f i) a st = .ok { st with stack := n :: st.stack } := by
   have hl : Opcodes.opcodes.lookup 0x5f = some { cls := "LoadPropertyOpcode", impl := "LoadPropertyOpcode", nbytes := 2, kind := "param1", attrs := [] } := rfl
   have hk : ¬ ("param1" = "bi" ∨ "param1" = "tri") := by decide
   simp only [execI, hl, hk, if_false]
@@ -550,7 +551,6 @@ theorem sys_table (k : Nat) (h : tblSys.any (fun x => x.1 == k) = true) :
   obtain ⟨x, hx, hk⟩ := h
   have hk' : x.1 = k := by simpa using hk
   have := List.all_eq_true.mp sys_rows x hx
-  rw [hk'] at this
   unfold sysRowOk at this
   rw [hk'] at this
   split at this
@@ -563,32 +563,41 @@ theorem bi_lookup_5c : Opcodes.opcodes.lookup 0x5c = some { cls := "SoundPropert
 
 theorem exec_sys (ctx : Lscr.Ctx) (k : Nat) (hk : tblSys.any (fun x => x.1 == k) = true) (a : Int) (st : PState) (p : Int) (rest : List Node)
     (hs : st.stack = .leaf .const (.s (natStr k)) p :: rest) :
-    ∃ n, Emb (.the .sys k []) n ∧ execI ctx (.op2 0x5c 7) a st = .ok { st with stack := n :: rest } := by
+    ∃ o, (startsWith o (S "_") = true ∨ o = S "tell_obj") ∧
+      execI ctx (.op2 0x5c 7) a st = .ok { st with stack := .propAcc a (.leaf .localVar (.s o) a) (nameOrUnknown tblSys k) :: rest } := by
   obtain ⟨o, hd, ho⟩ := sys_table k hk
-  have hb : Opcodes.biOpcodes.lookup (0x5c * 256 + 7) = some { cls := "SystemPropertiesOpcode", impl := "SystemPropertiesOpcode", nbytes := 2, kind := "bi", attrs := [] } := rfl
+  have hb : Opcodes.biOpcodes.lookup 23559 = some { cls := "SystemPropertiesOpcode", impl := "SystemPropertiesOpcode", nbytes := 2, kind := "bi", attrs := [] } := rfl
   have hkb : ("bi" = "bi" ∨ "bi" = "tri") := Or.inl rfl
-  simp only [execI, bi_lookup_5c, hkb, if_true, hb]
+  simp only [execI, bi_lookup_5c, hkb, if_true, Nat.reduceMul, Nat.reduceAdd, hb]
+  simp only [true_or, if_true]
   have hp : process ctx { cls := "SystemPropertiesOpcode", impl := "SystemPropertiesOpcode", nbytes := 2, kind := "bi", attrs := [] } 0 0 a st
       = process0 ctx { cls := "SystemPropertiesOpcode", impl := "SystemPropertiesOpcode", nbytes := 2, kind := "bi", attrs := [] } a st := by
-    simp [process, readsP1, readsP2]
+    unfold process
+    rw [if_neg (by decide), if_neg (by decide)]
   rw [hp]
   unfold process0
   simp only [systemProps, popInt, PState.pop, hs, Node.name, toInt_natStr, hd, Bind.bind, Except.bind, pure, Except.pure, PState.push]
   by_cases ht : st.tell = true
-  · exact ⟨_, ⟨a, a, S "tell_obj", rfl, Or.inr rfl⟩, by simp only [ht, if_true]⟩
-  · exact ⟨_, ⟨a, a, o, rfl, Or.inl ho⟩, by simp only [ht, if_false]; rfl⟩
+  · rw [if_pos ht]
+    exact ⟨S "tell_obj", Or.inr rfl, rfl⟩
+  · rw [if_neg ht]
+    exact ⟨o, Or.inl ho, rfl⟩
 
-theorem special_table : ∀ k, k < 6 → listGet Gen.PropTables.specialProperties (k : Int) = .ok (nameOrUnknown tblSpecial k) := by decide +kernel
+theorem special_table : ∀ k : Nat, k < 6 → listGet Gen.PropTables.specialProperties (k : Int) = .ok (nameOrUnknown tblSpecial k) := by
+  intro k hk
+  have : k = 0 ∨ k = 1 ∨ k = 2 ∨ k = 3 ∨ k = 4 ∨ k = 5 := by omega
+  rcases this with rfl | rfl | rfl | rfl | rfl | rfl <;> rfl
 
 theorem exec_special (ctx : Lscr.Ctx) (k : Nat) (hk : k < 6) (a : Int) (st : PState) (p : Int) (rest : List Node)
     (hs : st.stack = .leaf .const (.s (natStr k)) p :: rest) :
     execI ctx (.op2 0x5c 0) a st = .ok { st with stack := .leaf .propName (.s (nameOrUnknown tblSpecial k)) a :: rest } := by
-  have hb : Opcodes.biOpcodes.lookup (0x5c * 256 + 0) = some { cls := "SpecialPropertiesOpcode", impl := "SpecialPropertiesOpcode", nbytes := 2, kind := "bi", attrs := [] } := rfl
+  have hb : Opcodes.biOpcodes.lookup 23552 = some { cls := "SpecialPropertiesOpcode", impl := "SpecialPropertiesOpcode", nbytes := 2, kind := "bi", attrs := [] } := rfl
   have hkb : ("bi" = "bi" ∨ "bi" = "tri") := Or.inl rfl
-  simp only [execI, bi_lookup_5c, hkb, if_true, hb]
+  simp only [execI, bi_lookup_5c, hkb, if_true, Nat.reduceMul, Nat.reduceAdd, hb, true_or]
   have hp : process ctx { cls := "SpecialPropertiesOpcode", impl := "SpecialPropertiesOpcode", nbytes := 2, kind := "bi", attrs := [] } 0 0 a st
       = process0 ctx { cls := "SpecialPropertiesOpcode", impl := "SpecialPropertiesOpcode", nbytes := 2, kind := "bi", attrs := [] } a st := by
-    simp [process, readsP1, readsP2]
+    unfold process
+    rw [if_neg (by decide), if_neg (by decide)]
   rw [hp]
   unfold process0
   have hlt : ((k : Nat) : Int) < 6 := by omega
@@ -636,9 +645,12 @@ theorem EmbH.toEmb (hs : List Spec.Name) : ∀ (e : Expr) (n : Node), EmbH hs e 
   | .me, _, h => by simp [EmbH] at h
   | .mcall _ _ _, _, h => by simp [EmbH] at h
   | .plist _, _, h => by simp [EmbH] at h
-  | .the _ _ _, _, h => by simp [EmbH] at h
-  | .key _, _, h => by simp [EmbH] at h
-  | .movie _, _, h => by simp [EmbH] at h
+  | .the t k as, _, h => by
+    cases as with
+    | cons x xs => cases t <;> simp [EmbH] at h
+    | nil => cases t <;> first | (simp [EmbH] at h; done) | (simp only [EmbH] at h; simp only [Emb]; exact h)
+  | .key _, _, h => by simp only [EmbH] at h; simp only [Emb]; exact h
+  | .movie _, _, h => by simp only [EmbH] at h; simp only [Emb]; exact h
   | .oprop _ _, _, h => by simp [EmbH] at h
   | .chunk _ _ _ _, _, h => by simp [EmbH] at h
 theorem EmbLH.toEmbL (hs : List Spec.Name) : ∀ (as : List Expr) (ns : List Node), EmbLH hs as ns → EmbL as ns
@@ -995,9 +1007,79 @@ theorem stack_lemma : ∀ (e : Expr), FragE e = true → ∀ (c : Spec.Ctx) (s0 
   | .me, hf, _, _, _, _, _ => by simp [FragE] at hf
   | .mcall _ _ _, hf, _, _, _, _, _ => by simp [FragE] at hf
   | .plist _, hf, _, _, _, _, _ => by simp [FragE] at hf
-  | .the _ _ _, hf, _, _, _, _, _ => by simp [FragE] at hf
-  | .key _, hf, _, _, _, _, _ => by simp [FragE] at hf
-  | .movie _, hf, _, _, _, _, _ => by simp [FragE] at hf
+  | .the t k as, hf, c, s0, s1, code, h => by
+    cases as with
+    | cons x xs => cases t <;> simp [FragE] at hf
+    | nil =>
+      have hlow : ∃ ci, lowerInt k s0 = .ok (ci, s1) ∧ code = ci ++ [.op2 0x5c t.code] := by
+        rw [lowerExpr, lowerArgs] at h
+        simp only [M_bind_ok, M_pure_ok, Prod.mk.injEq] at h
+        obtain ⟨ca, s', ⟨rfl, rfl⟩, ci, s'', hi, rfl, rfl⟩ := h
+        exact ⟨ci, hi, by simp⟩
+      obtain ⟨ci, hi, rfl⟩ := hlow
+      obtain ⟨hext, hop, hrun⟩ := lowerInt_ok k s0 s1 ci hi
+      have hops : ∀ i ∈ ci ++ [Instr.op2 0x5c t.code], i.opc ≠ 153 := by
+        intro i hi
+        rcases List.mem_append.mp hi with hi | hi
+        · exact hop i hi
+        · simp only [List.mem_singleton] at hi; subst hi; simp [Instr.opc]
+      refine ⟨hext, hops, ?_⟩
+      intro sF ctx hF hrel G _ a st hb hgv
+      obtain ⟨i, rfl, hex⟩ := hrun c sF ctx hF hrel (a : Int) st hb
+      cases t with
+      | sys =>
+        simp only [FragE] at hf
+        obtain ⟨o, ho, hs⟩ := exec_sys ctx k hf ((a + codeSize [i] : Nat) : Int)
+          { st with stack := .leaf .const (.s (natStr k)) (a : Int) :: st.stack } (a : Int) st.stack rfl
+        refine ⟨.propAcc ((a + codeSize [i] : Nat) : Int) (.leaf .localVar (.s o) ((a + codeSize [i] : Nat) : Int)) (nameOrUnknown tblSys k),
+          st.gvars, ?_, GvNext.refl hgv, ?_⟩
+        · simp only [EmbH]; exact ⟨_, _, o, rfl, ho⟩
+        · rw [runIs_append, runIs_single, hex]
+          simp only [Except.bind]
+          rw [runIs_single]
+          exact hs
+      | special =>
+        simp only [FragE, decide_eq_true_eq] at hf
+        have hs := exec_special ctx k hf ((a + codeSize [i] : Nat) : Int)
+          { st with stack := .leaf .const (.s (natStr k)) (a : Int) :: st.stack } (a : Int) st.stack rfl
+        refine ⟨.leaf .propName (.s (nameOrUnknown tblSpecial k)) ((a + codeSize [i] : Nat) : Int), st.gvars, ?_, GvNext.refl hgv, ?_⟩
+        · simp only [EmbH]; exact ⟨_, rfl⟩
+        · rw [runIs_append, runIs_single, hex]
+          simp only [Except.bind]
+          rw [runIs_single]
+          exact hs
+      | _ => simp [FragE] at hf
+  | .key v, _, c, s0, s1, code, h => by
+    rw [lowerExpr] at h
+    simp only [M_bind_ok, M_pure_ok, Prod.mk.injEq] at h
+    obtain ⟨i, s', hn, cd, s'', hc, rfl, rfl⟩ := h
+    obtain ⟨hext, hget, hlt, _⟩ := nameIdx_ok _ _ _ _ hn
+    obtain ⟨rfl, rfl, hx⟩ := op2c_ok _ _ _ _ _ hc
+    refine ⟨hext, by simp [Instr.opc], ?_⟩
+    intro sF ctx hF hrel G hG a st hb hgv
+    have hnm : ctx.names[i]? = some v := by rw [hrel.names]; exact hF.name hget
+    have e1 := exec_args1 ctx true 0 (a : Int) st (Nat.zero_le _)
+    simp only [if_true, List.take_zero, List.drop_zero] at e1
+    have e2 := exec_key ctx i v hnm ((a + codeSize [Instr.op2 0x43 0] : Nat) : Int)
+      { st with stack := .loadList (listName true) (a : Int) [] :: st.stack } _ _ st.stack rfl
+    refine ⟨.keyAcc ((a + codeSize [Instr.op2 0x43 0] : Nat) : Int) v, st.gvars, ?_, GvNext.refl hgv, ?_⟩
+    · simp only [EmbH]; exact ⟨_, rfl⟩
+    · show runIs ctx a ([Instr.op2 0x43 0] ++ [Instr.op2 0x66 i]) st = _
+      rw [runIs_append, runIs_single, e1]
+      simp only [Except.bind]
+      rw [runIs_single]
+      exact e2
+  | .movie v, _, c, s0, s1, code, h => by
+    rw [lowerExpr] at h
+    simp only [M_bind_ok] at h
+    obtain ⟨i, s', hn, h⟩ := h
+    obtain ⟨hext, hget, hlt, _⟩ := nameIdx_ok _ _ _ _ hn
+    obtain ⟨rfl, rfl, hx⟩ := op2c_ok _ _ _ _ _ h
+    refine ⟨hext, by simp [Instr.opc], ?_⟩
+    intro sF ctx hF hrel G hG a st hb hgv
+    have hnm : ctx.names[i]? = some v := by rw [hrel.names]; exact hF.name hget
+    obtain ⟨n, hn', hex⟩ := exec_movie ctx i v hnm (a : Int) st
+    exact ⟨n, st.gvars, by simp only [EmbH]; exact hn', GvNext.refl hgv, by rw [runIs_single, hex]⟩
   | .oprop _ _, hf, _, _, _, _, _ => by simp [FragE] at hf
   | .chunk _ _ _ _, hf, _, _, _, _, _ => by simp [FragE] at hf
 /-- argument lists: every argument is pushed, first argument deepest -/
